@@ -5,6 +5,8 @@ import (
 	"runtime"
 	"sync"
 
+	"golang.org/x/tools/go/ssa"
+
 	"verif/wscheck/internal/fold"
 )
 
@@ -47,4 +49,35 @@ func derefType(t types.Type) types.Type {
 		return p.Elem()
 	}
 	return t
+}
+
+type (
+	ssaFunction = ssa.Function
+	ssaCall     = ssa.Call
+	ssaConst    = ssa.Const
+)
+
+// fieldLoadOf reports whether v is (a load of) the field named name of some struct.
+func fieldLoadOf(v ssa.Value, name string) bool {
+	switch x := v.(type) {
+	case *ssa.Field:
+		st, ok := x.X.Type().Underlying().(*types.Struct)
+		return ok && st.Field(x.Field).Name() == name
+	case *ssa.UnOp:
+		if fa, ok := x.X.(*ssa.FieldAddr); ok {
+			st, ok := fa.X.Type().Underlying().(*types.Pointer).Elem().Underlying().(*types.Struct)
+			return ok && st.Field(fa.Field).Name() == name
+		}
+	}
+	return false
+}
+
+// constIntQuiet reads a package-level integer constant without recording anything.
+func (c *Ctx) constIntQuiet(pkg, name string) (int64, bool) {
+	if sp := c.P.SSA[pkg]; sp != nil {
+		if k := sp.Const(name); k != nil && k.Value != nil {
+			return k.Value.Int64(), true
+		}
+	}
+	return 0, false
 }
